@@ -1,12 +1,12 @@
 (* C10 - the expression-ladder model (ExprParse.v) is total with LINEAR recursion depth:
 
-   parse_total_l     : with fuel K*(|tokens|+1), K = 14 = L+5 frames per token, none of the eight
+   parse_total_l     : with fuel K*(|tokens|+1), K = 15 = L+5 frames per token, none of the eight
                        mutually recursive functions ever answers Fuel - for EVERY token list
                        (well-formed or not, any nesting depth);
    parse_progress_l  : a successful parse consumes at least one token (this is what makes every
                        loop iteration of the ladder, of parsePostfix and of the argument list
                        advance);
-   the two look-aheads of parsePrimary return suffixes of their input (targs_list_le, cast_type_lt).
+   the type-argument look-ahead of parsePrimary returns a suffix of its input (targs_list_le).
 
    The proof is one induction on the fuel carrying, for each function X, the statement
    "need_X(|ts|) <= fuel -> X fuel ts <> Fuel /\ on Ok the rest is (strictly) shorter". *)
@@ -117,15 +117,11 @@ Lemma p_primary_S f ts : p_primary (S f) ts =
         if starts_lp r2 then Err else Ok (Call x args, r2))
   | TId x :: r => Ok (Var x, r)
   | TLP :: r =>
-      match cast_type r with
-      | Some (ty, r') => bind (p_unary f r') (fun ar => let (a, r2) := ar in Ok (Cast ty a, r2))
-      | None =>
-          bind (p_assign f r) (fun er =>
-            match er with
-            | (e, TRP :: r') => Ok (e, r')
-            | _ => Err
-            end)
-      end
+      bind (p_assign f r) (fun er =>
+        match er with
+        | (e, TRP :: r') => Ok (e, r')
+        | _ => Err
+        end)
   | _ => Err
   end.
 Proof. reflexivity. Qed.
@@ -169,56 +165,6 @@ Proof.
   - apply IH in H. simpl in E. lia.
 Qed.
 
-Lemma ty_dims_le : forall ts acc ty r, ty_dims acc ts = Some (ty, r) -> ln r <= ln ts.
-Proof.
-  intros ts. remember (ln ts) as n eqn:Hn. revert ts Hn.
-  induction n as [n IH] using lt_wf_ind. intros ts Hn acc ty r H.
-  destruct ts as [|t ts]; [simpl in H; inversion H; subst; simpl; lia|].
-  destruct t; try (simpl in H; inversion H; subst; lia).
-  destruct ts as [|t2 ts]; [simpl in H; discriminate|].
-  destruct t2; try (simpl in H; discriminate).
-  - destruct ts as [|t3 ts]; [simpl in H; discriminate|].
-    destruct t3; try (simpl in H; discriminate).
-    simpl in H. eapply IH in H; [|shelve|reflexivity]. simpl in *. lia.
-    Unshelve. subst n. simpl. lia.
-  - destruct ts as [|t3 ts]; [simpl in H; discriminate|].
-    destruct t3; try (simpl in H; discriminate).
-    simpl in H. eapply IH in H; [|shelve|reflexivity]. simpl in *. lia.
-    Unshelve. subst n. simpl. lia.
-  - simpl in H. eapply IH in H; [|shelve|reflexivity]. simpl in *. lia.
-    Unshelve. subst n. simpl. lia.
-Qed.
-
-Lemma ty_refs_le : forall ts acc ty r, ty_refs acc ts = Some (ty, r) -> ln r <= ln ts.
-Proof.
-  intros ts acc ty r H. unfold ty_refs in H.
-  destruct ts as [|t ts]; [apply ty_dims_le in H; exact H|].
-  destruct t; try (apply ty_dims_le in H; exact H).
-  destruct o; try (apply ty_dims_le in H; exact H).
-  - apply ty_dims_le in H. simpl. lia.
-  - destruct ts as [|t2 ts]; [apply ty_dims_le in H; simpl in *; lia|].
-    destruct t2; try (apply ty_dims_le in H; simpl in *; lia).
-    destruct o; try (apply ty_dims_le in H; simpl in *; lia).
-Qed.
-
-Lemma ty_stars_le : forall ts acc ty r, ty_stars acc ts = Some (ty, r) -> ln r <= ln ts.
-Proof.
-  induction ts as [|t ts IH]; intros acc ty r H.
-  - cbn [ty_stars] in H. apply ty_refs_le in H. exact H.
-  - destruct t; try (cbn [ty_stars] in H; apply ty_refs_le in H; exact H).
-    destruct o; try (cbn [ty_stars] in H; apply ty_refs_le in H; exact H).
-    cbn [ty_stars] in H. apply IH in H. simpl. lia.
-Qed.
-
-Lemma cast_type_lt : forall ts ty r, cast_type ts = Some (ty, r) -> ln r + 2 <= ln ts.
-Proof.
-  intros ts ty r H. unfold cast_type in H.
-  destruct ts as [|t ts]; [discriminate|]. destruct t; try discriminate.
-  destruct (ty_stars [TId s] ts) as [[ty' r0]|] eqn:E; [|discriminate].
-  apply ty_stars_le in E. destruct r0 as [|t r0]; [discriminate|].
-  destruct t; try discriminate. inversion H; subst. simpl in *. lia.
-Qed.
-
 Lemma unary_tok_len : forall ts u r, unary_tok ts = Some (u, r) -> ln ts = S (ln r).
 Proof.
   intros ts u r H. destruct ts as [|t ts]; [discriminate|].
@@ -230,10 +176,10 @@ Qed.
 Definition n_prim (n : nat) := 1 + K * n.
 Definition n_post (n : nat) := 1 + K * n.
 Definition n_unary (n : nat) := 2 + K * n.
-Definition n_bin (l n : nat) := 3 + (10 - l) + K * n.
-Definition n_tern (n : nat) := 13 + K * n.
-Definition n_assign (n : nat) := 14 + K * n.
-Definition n_args (n : nat) := 15 + K * n.
+Definition n_bin (l n : nat) := 3 + (11 - l) + K * n.
+Definition n_tern (n : nat) := 14 + K * n.
+Definition n_assign (n : nat) := 15 + K * n.
+Definition n_args (n : nat) := 16 + K * n.
 
 (* [good x n d]: x is not Fuel and, when it is Ok, at most n - d tokens are left *)
 Definition good {A} (x : res (A * list tok)) (n d : nat) : Prop :=
@@ -385,14 +331,10 @@ Proof.
         destruct (p_args f r1) as [[args r2]| |]; cbn [bind good] in *; auto.
         destruct (starts_lp r2); cbn [good]; auto; try lia.
     + (* TLP *)
-      destruct (cast_type r) as [[ty r']|] eqn:Ec.
-      * apply cast_type_lt in Ec.
-        assert (G := IHu r' ltac:(unfold_needs; lia)).
-        destruct (p_unary f r') as [[a r2]| |]; cbn [bind good] in *; auto; try lia.
-      * assert (G := IHa r ltac:(unfold_needs; lia)).
-        destruct (p_assign f r) as [[e r']| |]; cbn [bind good] in *; auto.
-        destruct r' as [|t2 r']; cbn [good]; auto.
-        destruct t2; cbn [good]; auto. cbn [List.length] in G. lia.
+      assert (G := IHa r ltac:(unfold_needs; lia)).
+      destruct (p_assign f r) as [[e r']| |]; cbn [bind good] in *; auto.
+      destruct r' as [|t2 r']; cbn [good]; auto.
+      destruct t2; cbn [good]; auto. cbn [List.length] in G. lia.
   - (* p_args *)
     intros ts Hn. rewrite p_args_S.
     assert (Hgen : good (bind (p_assign f ts) (fun ar =>
@@ -521,13 +463,9 @@ Proof.
         * destruct (p_args f r1) as [[args r2]| |] eqn:E1; cbn [bind]; try discriminate.
           apply IHar in E1. destruct (starts_lp r2); try discriminate.
           intros [= <- <-]. cbn [List.length] in *. lia.
-      + destruct (cast_type r0) as [[ty r']|] eqn:Ec.
-        * apply cast_type_lt in Ec.
-          destruct (p_unary f r') as [[a r2]| |] eqn:E1; cbn [bind]; try discriminate.
-          apply IHu in E1. intros [= <- <-]. cbn [List.length]. lia.
-        * destruct (p_assign f r0) as [[e1 r']| |] eqn:E1; cbn [bind]; try discriminate.
-          apply IHa in E1. destruct r' as [|t2 r']; try discriminate.
-          destruct t2; try discriminate. intros [= <- <-]. cbn [List.length] in *. lia.
+      + destruct (p_assign f r0) as [[e1 r']| |] eqn:E1; cbn [bind]; try discriminate.
+        apply IHa in E1. destruct r' as [|t2 r']; try discriminate.
+        destruct t2; try discriminate. intros [= <- <-]. cbn [List.length] in *. lia.
     - intros ts e r. rewrite p_args_S.
       assert (Hgen : bind (p_assign f ts) (fun ar =>
         match ar with
